@@ -193,11 +193,21 @@ func init() {
 						}
 					}
 				}
+				// a request that waits for a longer reply (FC3, 4 registers: 13 bytes), so that a shorter string on the wire
+				// - an exception frame with bytes behind it, a truncated reply - is looked at while the reply is incomplete
+				for _, l := range rng(0, 14) {
+					for _, ch := range chunks {
+						if l == 0 && ch > 1 {
+							continue
+						}
+						js = append(js, sym.Job{Harness: "VH_C12_arbitrary_reply", Params: map[string]int{"mode": mode, "kind": 2, "q": 4, "L": l, "chunks": ch}, AbstractCRC: true})
+					}
+				}
 			}
 			return js
 		},
 		Bounds: map[string]string{
-			"quick":    "RTU network client and serial client; requests FC3, FC5, FC17; the wire carries an arbitrary byte string of every length 0..10 (all contents symbolic: every corruption, truncation and extension of every reply of those lengths), delivered in 1 or 2 reads with case-split cut and optional empty timed-out reads; CRC16 treated as an uninterpreted function (the property is proved for every CRC function), counterexamples refined to real CRC values",
+			"quick":    "RTU network client and serial client; requests FC3, FC5, FC17 of quantity 1 with an arbitrary byte string of every length 0..10 on the wire, and FC3 of 4 registers (13-byte reply) with every length 0..14 (all contents symbolic: every corruption, truncation and extension of every reply of those lengths), delivered in 1 or 2 reads with case-split cut and optional empty timed-out reads; CRC16 treated as an uninterpreted function (the property is proved for every CRC function), counterexamples refined to real CRC values",
 			"thorough": "requests FC1,3,5,6,15,17,23; wire lengths 0..24, 255, 256",
 		},
 		Outside:     []string{"wire strings longer than the bound", "more than 2 reads"},
@@ -217,8 +227,18 @@ func init() {
 			}
 			var js []sym.Job
 			for _, fault := range []int{0, 2, 3} {
-				for _, j := range clientJobs("VH_C19_hooks", th, chunks, fault == 0, map[string]int{"fault": fault}) {
+				for _, j := range clientJobs("VH_C19_hooks", th, chunks, fault == 0, map[string]int{"fault": fault, "extra": 0}) {
 					if fault != 0 && j.Params["chunks"] > 1 && !th {
+						continue
+					}
+					js = append(js, j)
+				}
+			}
+			// the reply followed by 1 or 4 more bytes on the wire (FC3, FC5, FC17; smallest reply; ordinary cut sets)
+			for _, extra := range []int{1, 4} {
+				for _, j := range clientJobs("VH_C19_hooks", th, ints(1, 2), false, map[string]int{"fault": 0, "extra": extra}) {
+					k := j.Params["kind"]
+					if (k != 2 && k != 4 && k != 8) || j.Params["q"] != clientQs(k, th)[0] || j.Params["chunks"] > 2 {
 						continue
 					}
 					js = append(js, j)
@@ -227,7 +247,7 @@ func init() {
 			return js
 		},
 		Bounds: map[string]string{
-			"quick":    "10 functions x 3 clients x reply sizes {min,mid,max}; complete reply in up to 2 reads (cut positions case-split, optional empty timed-out reads; for a mid-sized long reply of FC1-4/FC23 every position 0..L-1) incl. exception replies, or a case-split prefix followed by EOF / an I/O error; each script is run once with recording hooks and once without hooks",
+			"quick":    "10 functions x 3 clients x reply sizes {min,mid,max}; complete reply in up to 2 reads (cut positions case-split, optional empty timed-out reads; for a mid-sized long reply of FC1-4/FC23 every position 0..L-1) incl. exception replies, or a case-split prefix followed by EOF / an I/O error, or the reply followed by 1 or 4 further bytes on the wire (FC3, FC5, FC17); each script is run once with recording hooks and once without hooks",
 			"thorough": "up to 3 reads; more reply sizes; every cut position also for the largest reply of FC1-4/FC23",
 		},
 		Outside:     []string{"more reads than the bound; cut positions outside the case-split set"},
